@@ -24,12 +24,19 @@ Section Top.
   Qed.
 
   (* every sample returned by a Pop *)
+  Lemma emitted_run : forall ops x, history_ok ops ->
+    In x (snd (run ops)) -> sample_run is_head unmarshal (pushed_of ops) x.
+  Proof.
+    intros ops x Hh Hx. destruct (run_invariant ops Hh) as [Hi Ho].
+    apply (i_built _ _ _ _ _ Hi). apply Ho. exact Hx.
+  Qed.
+
   Lemma emitted_wf : forall ops x, history_ok ops ->
     fault (fst (run ops)) = 0 -> In x (snd (run ops)) ->
     sample_wf is_head is_tail unmarshal (pushed_of ops) x.
   Proof.
     intros ops x Hh Hf Hx. destruct (run_invariant ops Hh) as [Hi Ho].
-    apply (i_built _ _ _ _ _ Hi Hf). apply Ho. exact Hx.
+    destruct (i_built _ _ _ _ _ Hi x (Ho x Hx)) as [G G']. split; [exact G|apply G'; exact Hf].
   Qed.
 
   Lemma released_once : forall ops, history_ok ops ->
